@@ -16,13 +16,15 @@ type opaqueStr struct{ desc string }
 
 func isOpaque(v value) bool { _, ok := v.(opaqueStr); return ok }
 
-func (fr *frame) nativeArg(v value, sawSym *bool) interface{} {
+func (fr *frame) nativeArg(v value, sawSym *bool) interface{} { return fr.nativeArgV(v, sawSym, true) }
+
+func (fr *frame) nativeArgV(v value, sawSym *bool, useMethods bool) interface{} {
 	switch x := v.(type) {
 	case iface:
 		if x.t == nil {
 			return nil
 		}
-		if _, isPtr := x.v.(*value); isPtr || true {
+		if useMethods {
 			for _, mname := range []string{"Error", "String"} {
 				ms := fr.i.prog.MethodSets.MethodSet(x.t)
 				sel := ms.Lookup(nil, mname)
@@ -153,8 +155,13 @@ func (fr *frame) sprintf(format string, args []value) value {
 	}
 	var na []interface{}
 	saw := false
-	for _, a := range args {
-		na = append(na, fr.nativeArg(a, &saw))
+	verbs := formatVerbs(format)
+	for i, a := range args {
+		use := true
+		if i < len(verbs) {
+			use = verbs[i] == 'v' || verbs[i] == 's' || verbs[i] == 'q'
+		}
+		na = append(na, fr.nativeArgV(a, &saw, use))
 	}
 	s := fmt.Sprintf(format, na...)
 	if saw {
@@ -283,4 +290,23 @@ func init() {
 		}
 		return tuple{iface{}, e}
 	}
+}
+
+
+// formatVerbs lists the verb letter consumed by each successive argument of a format string.
+func formatVerbs(format string) []byte {
+	var out []byte
+	for i := 0; i < len(format); i++ {
+		if format[i] != '%' {
+			continue
+		}
+		i++
+		for i < len(format) && (format[i] == '+' || format[i] == '-' || format[i] == '#' || format[i] == ' ' || format[i] == '0' || format[i] == '.' || (format[i] >= '1' && format[i] <= '9')) {
+			i++
+		}
+		if i < len(format) && format[i] != '%' {
+			out = append(out, format[i])
+		}
+	}
+	return out
 }
